@@ -21,6 +21,7 @@ RULE = ('EconSpecs as in C01, biased to imports (several suppliers with allocati
         'demand; asset demands of a weighting sector add up to its F; default money demand == F. Non-trivial: a market with '
         '>= 2 suppliers, or a demander outside the market\'s country, or a cross-currency supplier, with non-zero traded '
         'amount. Distinct: sha1 of the spec.')
+RULE = RULE + (' Input shapes added after the seeded-change rounds (DESIGN.md section 8): ' + 'nested sector codes (B / CB), financial markets declared in another country than their issuer, numeric supplier rules incl. a zero quota, foreign residual suppliers, construction probes.')
 ASSUMPTIONS = [
     'canonical declaration order (C08 varies the order)',
     'expected participants come from the EconSpec (who was given a demand/supply) and must coincide with the sectors that '
